@@ -768,11 +768,11 @@ func (c *Ctx) RequestPathWaits(prop string) {
 	for f := range pred {
 		fns = append(fns, f)
 	}
-	// the gRPC handlers in front of the signer service are part of the request's path too: a queue or dispatcher there merges
+	// the gRPC interceptors and handlers in front of the signer service are part of the request's path too: a queue or dispatcher there merges
 	// requests before they reach the service (their functions are scanned whether or not they reach RunRules statically - a
 	// dispatcher goroutine is exactly what cuts that path)
 	for _, f := range c.P.ModuleFuncs() {
-		if strings.HasSuffix(prog.PkgPathOf(f), "/handlers/signer") && !prog.IsTestish(prog.PkgPathOf(f)) && f.Blocks != nil {
+		if (strings.HasSuffix(prog.PkgPathOf(f), "/handlers/signer") || strings.HasSuffix(prog.PkgPathOf(f), "/services/api/grpc/interceptors")) && !prog.IsTestish(prog.PkgPathOf(f)) && f.Blocks != nil {
 			if _, dup := pred[f]; !dup {
 				fns = append(fns, f)
 			}
